@@ -15,7 +15,7 @@ import os
 
 from vlib import Infra, go_test, l1, log, monitor, read_ndjson, report, trace_of
 
-MUT = ("push", "tag", "untag", "delete", "gc", "stray")
+MUT = ("push", "tag", "untag", "delete", "gc", "stray", "strayalt")
 
 
 def owners(inv, lastop):
@@ -23,6 +23,8 @@ def owners(inv, lastop):
     out = set()
     if inv in ("PredExact", "PredNoDup") or "Pred" in inv:
         out.add("C07")
+    if inv == "DiskAltBlobFiles":
+        return {"C09"}      # unreachable blob files under another algorithm's directory: "GC removes exactly the blob files ..."
     if inv.startswith("Reopen") or inv.startswith("Disk"):
         out.add("C08")
     if inv.startswith("Live") or inv in ("FetchResult", "ExistsResult", "ResolveResult", "TagsListing", "OpResult"):
